@@ -428,9 +428,7 @@ def explore_params(ctx, extended=False):
         for text in ('K=a"b', 'K=\x01', 'K="a\x7f"', ':=1', 'K K=1', '=1'):
             F.n += 1
             try:
-                back = it.run(from_ical, [text], {})
-                F.add("reader rejects", f"Parameters.from_ical accepts the malformed text {text!r}",
-                      text=text, read=_params_dict(it, back))
+                it.run(from_ical, [text], {})   # leniency is not a violation; the error class is
             except AbsRaise as e:
                 if "ValueError" not in it.exc_bases(e.cls_name):
                     F.add("reader rejects", f"Parameters.from_ical({text!r}) raises {e.cls_name}, "
@@ -538,9 +536,7 @@ def explore_lines(ctx):
             F.n += 1
             try:
                 line = it.instantiate(CL, [bad + ":v"], {})
-                n2, p2, v2 = it.run(it.getattr(line, "parts"), [], {})
-                if _s(n2) == bad:
-                    F.add("token", f"a content line whose name is {bad!r} is accepted", line=bad + ":v")
+                it.run(it.getattr(line, "parts"), [], {})       # leniency is not a violation
             except AbsRaise as e:
                 if "ValueError" not in it.exc_bases(e.cls_name):
                     F.add("token", f"parts() raises {e.cls_name} (not ValueError) for the name {bad!r}",
@@ -563,7 +559,6 @@ def explore_lines(ctx):
             F.n += 1
             try:
                 it.run(it.getattr(it.instantiate(CL, [text], {}), "parts"), [], {})
-                F.add("reader rejects", f"parts() accepts the malformed line {text!r}", line=text)
             except AbsRaise as e:
                 if "ValueError" not in it.exc_bases(e.cls_name):
                     F.add("reader rejects", f"parts() of {text!r} raises {e.cls_name}, not ValueError",
